@@ -169,8 +169,87 @@ class Interp:
         else:
             raise AnalysisError("tabulation: loop target")
 
+    def _match(self, pat: ast.AST, v: Any, binds: dict[str, Any]) -> bool:
+        """Structural pattern matching for the pattern kinds the code base uses (class, value, singleton, capture,
+        wildcard, or, sequence, mapping-free)."""
+        if isinstance(pat, ast.MatchValue):
+            return bool(v == self.ev(pat.value))
+        if isinstance(pat, ast.MatchSingleton):
+            return v is pat.value
+        if isinstance(pat, ast.MatchAs):
+            if pat.pattern is not None and not self._match(pat.pattern, v, binds):
+                return False
+            if pat.name is not None:
+                binds[pat.name] = v
+            return True
+        if isinstance(pat, ast.MatchOr):
+            return any(self._match(p_, v, binds) for p_ in pat.patterns)
+        if isinstance(pat, ast.MatchClass):
+            cls = self.ev(pat.cls)
+            try:
+                if not isinstance(v, cls):
+                    return False
+            except TypeError:
+                raise AnalysisError(f"tabulation: class pattern {unparse(pat.cls)} is not a class stand-in")
+            if pat.patterns:
+                names = getattr(cls, "__match_args__", None)
+                if names is None:
+                    if len(pat.patterns) == 1 and cls in (str, int, float, bool, bytes, list, tuple, dict, set, frozenset):
+                        return self._match(pat.patterns[0], v, binds)
+                    raise AnalysisError(f"tabulation: positional class pattern for {unparse(pat.cls)} without __match_args__")
+                for nm, p_ in zip(names, pat.patterns):
+                    if not hasattr(v, nm) or not self._match(p_, getattr(v, nm), binds):
+                        return False
+            for nm, p_ in zip(pat.kwd_attrs, pat.kwd_patterns):
+                if not hasattr(v, nm) or not self._match(p_, getattr(v, nm), binds):
+                    return False
+            return True
+        if isinstance(pat, ast.MatchSequence):
+            if isinstance(v, (str, bytes)) or not isinstance(v, (list, tuple)):
+                return False
+            if any(isinstance(p_, ast.MatchStar) for p_ in pat.patterns):
+                raise AnalysisError("tabulation: starred sequence pattern")
+            return len(v) == len(pat.patterns) and all(self._match(p_, x, binds) for p_, x in zip(pat.patterns, v))
+        raise AnalysisError(f"tabulation: unsupported pattern {type(pat).__name__}")
+
+    def _resolve_context(self, stmts: list) -> None:
+        """A rule that hands over the body of a function of the analysed program with a plain environment (`self`, the
+        parameters, a few stand-ins) gets what the function's surroundings provide as well: module-level functions and
+        constants, and — for `self` / `cls` — helper methods, inherited bodies and class constants, all from the source."""
+        prog = CURRENT_PROG
+        if prog is None or not stmts or getattr(self, "_resolved", False):
+            return
+        self._resolved = True
+        fi = prog.owner(stmts[0])
+        if fi is None or not fi.node.body or fi.node.body[0] is not stmts[0]:
+            return
+        kw = {"max_steps": self.max_steps, "behaviours": self.behaviours[3:]}
+        base = {k: v for k, v in self.env.items() if k != "__builtins__"}
+        menv = module_env(prog, fi.module, base, kw)
+        for k, v in menv.items():
+            self.env.setdefault(k, v)
+        if fi.cls is not None:
+            for k in ("self", "cls"):
+                obj = self.env.get(k)
+                if obj is None or isinstance(obj, (Proxy, ClassProxy, _Fallback)):
+                    continue
+                if k == "self" and not isinstance(obj, type):
+                    # the stand-in keeps its identity: its class gets an attribute fallback into the source
+                    t = type(obj)
+                    if t.__module__ != "builtins" and "__getattr__" not in t.__dict__ and "__slots__" not in t.__dict__ and t.__name__ != "SimpleNamespace":
+                        try:
+                            t.__getattr__ = _fallback_getattr  # type: ignore[attr-defined]
+                        except TypeError:
+                            pass
+                    if t.__dict__.get("__getattr__") is _fallback_getattr:
+                        _FALLBACK_CTX[t] = (prog, fi.cls.qual, base, kw)
+                        continue
+                self.env[k] = _Fallback(prog, fi.cls.qual, obj, base, kw, is_class=(k == "cls"))
+
     def call(self, stmts: Iterable[ast.stmt]) -> Any:
         """Run a function body; the returned value (None without return)."""
+        stmts = list(stmts)
+        self._resolve_context(stmts)
         try:
             self.run(stmts)
         except _Return as r:
@@ -267,6 +346,16 @@ class Interp:
                         self.env[nm] = getattr(mod, a.name) if isinstance(s, ast.ImportFrom) else importlib.import_module(a.name.split(".")[0])
                         continue
                     raise AnalysisError(f"tabulation: no stand-in for imported name {a.asname or a.name}")
+            elif isinstance(s, ast.Match):
+                subject = self.ev(s.subject)
+                for case in s.cases:
+                    binds: dict[str, Any] = {}
+                    if self._match(case.pattern, subject, binds) :
+                        self.env.update(binds)
+                        if case.guard is not None and not self.ev(case.guard):
+                            continue
+                        self.run(case.body)
+                        break
             elif isinstance(s, ast.Try) and s.finalbody:
                 inner = ast.Try(body=s.body, handlers=s.handlers, orelse=s.orelse, finalbody=[])
                 ast.copy_location(inner, s)
@@ -360,6 +449,57 @@ class _Missing(Exception):
     pass
 
 
+CURRENT_PROG: Any = None   # set by the command line driver: lets a plain Interp find the surroundings of a function body
+
+
+_FALLBACK_CTX: dict[type, tuple] = {}
+
+
+def _fallback_getattr(self_: Any, name: str) -> Any:
+    """Installed as __getattr__ on the class of a rule's stand-in `self`: what the stand-in lacks comes from the source."""
+    if name.startswith("__") and name.endswith("__"):
+        raise AttributeError(name)
+    ctx = _FALLBACK_CTX.get(type(self_))
+    if ctx is None:
+        raise AttributeError(name)
+    prog, cq, env, kw = ctx
+    return _class_attr(prog, cq, env, kw, name, type(self_), self_)
+
+
+class _Fallback:
+    """A rule's own stand-in for `self` (or `cls`), completed from the source: attributes the stand-in lacks are looked up in
+    the class of the analysed program (helper methods, inherited bodies, class constants); stores go to the stand-in."""
+
+    def __init__(self, prog: Any, cq: str, obj: Any, env: dict[str, Any], kw: dict[str, Any], is_class: bool = False):
+        object.__setattr__(self, "_f", (prog, cq, obj, env, kw, is_class))
+
+    def __getattr__(self, name: str) -> Any:
+        prog, cq, obj, env, kw, is_class = object.__getattribute__(self, "_f")
+        try:
+            return getattr(obj, name)
+        except AttributeError:
+            if name.startswith("__") and name.endswith("__"):
+                raise
+            return _class_attr(prog, cq, env, kw, name, self if is_class else type(obj), None if is_class else self)
+
+    def __setattr__(self, name: str, value: Any) -> None:
+        setattr(object.__getattribute__(self, "_f")[2], name, value)
+
+    def __call__(self, *a: Any, **k: Any) -> Any:
+        return object.__getattribute__(self, "_f")[2](*a, **k)
+
+    def __eq__(self, o: Any) -> bool:
+        return o is self or o is object.__getattribute__(self, "_f")[2]
+
+    def __hash__(self) -> int:
+        return hash(id(object.__getattribute__(self, "_f")[2]))
+
+    @property  # type: ignore[misc]
+    def __class__(self) -> Any:  # noqa: D105
+        f = object.__getattribute__(self, "_f")
+        return f[2] if f[5] else type(f[2])
+
+
 class Recorded:
     """Default stand-in for a class the rule gives no stand-in for: remembers how it was constructed."""
 
@@ -385,6 +525,15 @@ def module_env(prog: Any, module: Any, base: dict[str, Any], interp_kwargs: dict
     for st in module.tree.body:
         if isinstance(st, ast.ClassDef) and st.name not in env:
             env[st.name] = type(st.name, (Recorded,), {})      # constructor calls are recorded (issue / error / value objects)
+        elif isinstance(st, ast.Import):
+            for al in st.names:
+                nm = al.asname or al.name.split(".")[0]
+                if nm not in env and al.name.split(".")[0] in PURE_STDLIB:
+                    try:
+                        import importlib
+                        env[nm] = importlib.import_module(al.name if al.asname else al.name.split(".")[0])
+                    except Exception:
+                        pass
         elif isinstance(st, ast.ImportFrom):
             for al in st.names:
                 nm = al.asname or al.name
@@ -424,6 +573,13 @@ def module_env(prog: Any, module: Any, base: dict[str, Any], interp_kwargs: dict
                             args = [const_eval(prog, module, a) for a in v.args]
                             kws = {k.arg: const_eval(prog, module, k.value) for k in v.keywords if k.arg}
                             env[tg.id] = env[v.func.id](*args, **kws)
+                        except Exception:
+                            pass
+                    if tg.id not in env and tg.id.startswith("_") or (tg.id not in env and tg.id.isupper()):
+                        # a private / constant-style module-level table (dispatch tuples, tables of operators): evaluated over
+                        # what the environment holds so far; whatever cannot be evaluated stays undefined (NameError → exit 2)
+                        try:
+                            env[tg.id] = Interp(env, **kw).ev(v)
                         except Exception:
                             pass
     return env
